@@ -98,12 +98,23 @@ def rule_transpose(ctx):
     for ndim in range(1, 5):
         for a1 in range(-ndim, ndim):
             for a2 in range(-ndim, ndim):
-                ext = {'self._get_axes_info': lambda args, kw: (list(args[0]), [None] * len(args[0])),
-                       'transpose': lambda args, kw: ('PERM', list(args[1]) if len(args) > 1 else None),
-                       'self.transpose': lambda args, kw: ('PERM', list(args[0]) if args else None)}
+                names = tuple('d%d' % k for k in range(ndim))
+
+                def pos_of(x, ndim=ndim, names=names):
+                    return names.index(x) if isinstance(x, str) else x
+
+                def norm(perm, ndim=ndim, names=names):
+                    # what transpose() is handed, as non-negative positions (it accepts names and positions counted from the end alike)
+                    if perm is None:
+                        return None
+                    return [(pos_of(x) % ndim) if isinstance(pos_of(x), int) and not isinstance(pos_of(x), bool) else x for x in perm]
+                ext = {'self._get_axes_info': lambda args, kw: ([pos_of(x) for x in args[0]], [names[pos_of(x) % ndim] for x in args[0]]),
+                       'self._get_axis_info': lambda args, kw: (pos_of(args[0]), names[pos_of(args[0]) % ndim]),
+                       'transpose': lambda args, kw: ('PERM', norm(list(args[1])) if len(args) > 1 else None),
+                       'self.transpose': lambda args, kw: ('PERM', norm(list(args[0]) if len(args) == 1 and isinstance(args[0], (list, tuple)) else list(args)) if args else None)}
                 it = absint.Interp(ext, {})
                 try:
-                    out = it.call_function(fi.node, ['SELF', a1, a2], {'self.ndim': ndim, 'self': 'SELF'})
+                    out = it.call_function(fi.node, ['SELF', a1, a2], {'self.ndim': ndim, 'self': 'SELF', 'self.dims': names})
                 except absint.Undecided as e:
                     ctx.undecide('R1', 'swapaxes not evaluable: %s' % e)
                     bad = 'undecided'
